@@ -730,7 +730,7 @@ func (vfs *MemFS) mkdirAll(path string, perm fs.FileMode) (retry bool, err error
 		broken := vfs.brokenLinkOnPath(path)
 
 		if vfs.renameSeqNow() != seq {
-			// an entry has been moved or a symbolic link removed since the path walk.
+			// an entry has been moved or removed since the path walk.
 			return true, nil
 		}
 
@@ -1089,10 +1089,9 @@ func (vfs *MemFS) remove(name string) (retry bool, err error) {
 		}
 	}
 
-	if _, ok := child.(*symlinkNode); ok {
-		// the path walks in progress that went through the link are no longer valid.
-		atomic.AddUint64(vfs.renameSeq, 1)
-	}
+	// the path walks in progress that went through the entry, or that found its name free
+	// and then found it taken (MkdirAll looks twice at a symbolic link), are no longer valid.
+	atomic.AddUint64(vfs.renameSeq, 1)
 
 	parent.removeChild(part)
 	child.delete()
@@ -1178,10 +1177,9 @@ func (vfs *MemFS) removeAll(path string) (retry bool, err error) {
 		return false, vfs.err.PermDenied
 	}
 
-	if _, ok := child.(*symlinkNode); ok {
-		// the path walks in progress that went through the link are no longer valid.
-		atomic.AddUint64(vfs.renameSeq, 1)
-	}
+	// the path walks in progress that went through the entry, or that found its name free
+	// and then found it taken (MkdirAll looks twice at a symbolic link), are no longer valid.
+	atomic.AddUint64(vfs.renameSeq, 1)
 
 	parent.removeChild(part)
 	child.delete()
@@ -1213,10 +1211,8 @@ func (vfs *MemFS) removeContent(dir *dirNode) error {
 			}
 		}
 
-		if _, ok := child.(*symlinkNode); ok {
-			// the path walks in progress that went through the link are no longer valid.
-			atomic.AddUint64(vfs.renameSeq, 1)
-		}
+		// the path walks in progress that went through the entry are no longer valid.
+		atomic.AddUint64(vfs.renameSeq, 1)
 
 		// the entry is removed as soon as its content is, so that a failure
 		// further on leaves a consistent directory.
